@@ -123,6 +123,7 @@ def run(repo, rep, tier):
     # prefix means what the enclosing elements declared: declarations of an
     # empty element end with it (C18 owns the namespace-stack rules)
     _pi_target(repo, rep)
+    parser_details(repo, rep)
     from . import c18, c07
     L.borrow(repo, rep, "R03.3", "C18", c18._nsstack, ("empty-tag",))
     # the CR/CRLF rewrite is decided by the content type of THIS body
@@ -609,7 +610,13 @@ def _fields(repo, rep):
                     continue
                 fld = n.targets[0].slice
                 lo = gaps[0].slice.lower
-                lo_ok = lo is not None and any(
+                init0 = lo is not None and any(
+                    isinstance(a_, ast.Assign) and
+                    src(a_.targets[0]) == src(lo) and
+                    isinstance(a_.value, ast.Constant) and
+                    a_.value.value == 0 and a_.lineno < loops[0].lineno
+                    for a_ in ast.walk(mt.node))
+                lo_ok = lo is not None and init0 and any(
                     isinstance(a_, ast.Assign) and
                     src(a_.targets[0]) == src(lo) and
                     src(a_.value) == lv + ".end()"
@@ -749,6 +756,94 @@ def unquoted_class_agrees(repo):
     missing = tset - pset
     return not missing, "tokenizer admits %s, parser consumes %s%s" % (
         tset, pset, ", not: %s" % missing if missing else "")
+
+
+def parser_details(repo, rep, rule="R03.3"):
+    """Value-level obligations of the tag parser:
+    * white space in the tag patterns is any white space, and a lazy
+      white-space repeat never hands blanks to a captured field;
+    * a '/' inside an unquoted value is one that is NOT followed by '>';
+    * identify() recognises opening delimiters at the start of the token and
+      closing ones at its end; '--' is looked for anywhere in a comment;
+    * visit_end_tag counts one per implicitly closed element."""
+    from .. import rx
+    import re as _re
+    C = rx.C
+    for cname in ("match_single_attribute", "match_tag_prefix_and_name"):
+        rc = repo.const("chameleon.parser", cname)
+        probs, counts = L.regex_shape(rc.pattern, rc.flags)
+        rep.check(not probs, rule, "chameleon.parser." + cname, "white space "
+                  "in the tag pattern: total classes, no lazy repeat in "
+                  "front of a field that admits white space",
+                  construct="tag-space:" + cname,
+                  detail="; ".join(sorted({t for k, t in probs})))
+    rc = repo.const("chameleon.parser", "match_single_attribute")
+    gi = _re.compile(rc.pattern, rc.flags).groupindex
+    loc = rx.locate_group(rx.parse(rc.pattern, rc.flags), gi["alt_value"])
+    ok = False
+    if loc is not None:
+        for it in rx_walk(loc[0]):
+            if it[0] is C.BRANCH:
+                for alt in it[1][1]:
+                    alt = list(alt)
+                    if len(alt) == 2 and alt[0][0] is C.LITERAL and \
+                            chr(alt[0][1]) == "/" and \
+                            alt[1][0] is C.ASSERT_NOT and \
+                            alt[1][1][0] == 1 and rx.all_chars(
+                                alt[1][1][1]) == rx.CharSet.of(">"):
+                        ok = True
+    rep.check(ok, rule, "chameleon.parser.match_single_attribute", "a '/' "
+              "belongs to an unquoted attribute value unless a '>' follows "
+              "it (href=/a/b is one value; <br class=x/> ends the tag)",
+              construct="slash-not-before-gt")
+    idf = repo.func(PARSER + ".identify")
+    bad = []
+    n = 0
+    for c in ast.walk(idf.node):
+        if isinstance(c, ast.Call) and isinstance(c.func, ast.Attribute) \
+                and c.func.attr in ("startswith", "endswith") and c.args \
+                and isinstance(c.args[0], ast.Constant) and isinstance(
+                    c.args[0].value, str):
+            v = c.args[0].value
+            n += 1
+            if v.startswith("<") and c.func.attr != "startswith":
+                bad.append("%r is looked for at the end" % v)
+            if v.endswith(">") and not v.startswith("<") and \
+                    c.func.attr != "endswith":
+                bad.append("%r is looked for at the start" % v)
+    hy = [c for c in ast.walk(idf.node) if isinstance(c, ast.Call)
+          and isinstance(c.func, ast.Attribute)
+          and src(c.func.value) == "match_double_hyphen"]
+    if not hy or any(c.func.attr != "search" for c in hy):
+        bad.append("'--' is not searched for in the whole comment (%s)"
+                   % [c.func.attr for c in hy])
+    rep.check(n >= 8 and not bad, rule, idf.qualname, "token "
+              "classification: opening delimiters at the start, closing "
+              "ones at the end, '--' anywhere in a comment (%d tests)" % n,
+              construct="identify-ends", where=L.where(idf),
+              detail="; ".join(bad))
+    ve = repo.cls(PARSER + ".ElementParser").methods["visit_end_tag"]
+    incs = [a for a in ast.walk(ve.node) if isinstance(a, ast.AugAssign)
+            and isinstance(a.op, ast.Add)]
+    rep.check(len(incs) == 1 and isinstance(incs[0].value, ast.Constant)
+              and incs[0].value.value == 1, rule, ve.qualname, "each "
+              "implicitly closed start tag counts one (its namespace map "
+              "is dropped with it)", construct="unclosed-counts-one",
+              where=L.where(ve), detail=str([src(a) for a in incs]))
+
+
+def rx_walk(items):
+    from .. import rx
+    C = rx.C
+    for op, av in items:
+        yield (op, av)
+        if op is C.SUBPATTERN:
+            yield from rx_walk(av[3])
+        elif op in (C.MAX_REPEAT, C.MIN_REPEAT):
+            yield from rx_walk(av[2])
+        elif op is C.BRANCH:
+            for alt in av[1]:
+                yield from rx_walk(alt)
 
 
 def _pi_target(repo, rep):
